@@ -1,0 +1,184 @@
+//go:build verif
+
+// Package compile is a verification-only facade (build tag "verif") over the
+// j5s compiler and printer in internal/j5s. It adds no behaviour: it only makes
+// the in-memory compile path reachable from the external verification harness.
+package compile
+
+import (
+	"context"
+	"fmt"
+	"path"
+	"sort"
+	"strings"
+
+	"github.com/pentops/j5/internal/bcl/errpos"
+	"github.com/pentops/j5/internal/j5s/protobuild"
+	"github.com/pentops/j5/internal/j5s/protoprint"
+	"google.golang.org/protobuf/reflect/protodesc"
+	"google.golang.org/protobuf/reflect/protoreflect"
+	"google.golang.org/protobuf/types/descriptorpb"
+)
+
+// Files is an in-memory bundle: filename (e.g. "foo/v1/a.j5s", "foo/v1/b.proto")
+// to full file content (including the package line).
+type Files struct {
+	Content map[string]string
+	// Packages in the order the source lists them; derived from Content when nil.
+	Packages []string
+	// Permute, when set, reorders each file listing (default: sorted).
+	Permute func(files []string) []string
+}
+
+func FileToPackage(filename string) string {
+	return strings.ReplaceAll(path.Dir(filename), "/", ".")
+}
+
+func (f *Files) ListPackages() []string {
+	if f.Packages != nil {
+		return f.Packages
+	}
+	seen := map[string]bool{}
+	var out []string
+	for k := range f.Content {
+		p := FileToPackage(k)
+		if !seen[p] {
+			seen[p] = true
+			out = append(out, p)
+		}
+	}
+	sort.Strings(out)
+	return out
+}
+
+func (f *Files) ListSourceFiles(ctx context.Context, prefix string) ([]string, error) {
+	var files []string
+	for k := range f.Content {
+		if strings.HasPrefix(k, prefix) {
+			files = append(files, k)
+		}
+	}
+	sort.Strings(files)
+	if f.Permute != nil {
+		files = f.Permute(files)
+	}
+	return files, nil
+}
+
+func (f *Files) GetLocalFile(ctx context.Context, filename string) ([]byte, error) {
+	if c, ok := f.Content[filename]; ok {
+		return []byte(c), nil
+	}
+	return nil, fmt.Errorf("file not found: %s", filename)
+}
+
+// Deps is an external dependency set given as descriptors.
+type Deps struct {
+	Files map[string]*descriptorpb.FileDescriptorProto
+}
+
+func (d *Deps) GetDependencyFile(filename string) (*descriptorpb.FileDescriptorProto, error) {
+	if d != nil {
+		if f, ok := d.Files[filename]; ok {
+			return f, nil
+		}
+	}
+	return nil, fmt.Errorf("dependency file not found: %s", filename)
+}
+
+func (d *Deps) ListDependencyFiles(root string) []string {
+	var out []string
+	if d != nil {
+		for k := range d.Files {
+			if strings.HasPrefix(k, root) {
+				out = append(out, k)
+			}
+		}
+	}
+	sort.Strings(out)
+	return out
+}
+
+// Set wraps a protobuild.PackageSet.
+type Set struct {
+	PS *protobuild.PackageSet
+}
+
+func NewSet(files *Files, deps *Deps) (*Set, error) {
+	if deps == nil {
+		deps = &Deps{}
+	}
+	ps, err := protobuild.NewPackageSet(deps, files)
+	if err != nil {
+		return nil, err
+	}
+	return &Set{PS: ps}, nil
+}
+
+// CompilePackage compiles one local package and returns the linked files
+// (the package's own files, as PackageSet.CompilePackage returns them).
+func (s *Set) CompilePackage(ctx context.Context, pkg string) ([]protoreflect.FileDescriptor, error) {
+	out, err := s.PS.CompilePackage(ctx, pkg)
+	if err != nil {
+		return nil, err
+	}
+	files := make([]protoreflect.FileDescriptor, 0, len(out))
+	for _, f := range out {
+		files = append(files, f)
+	}
+	return files, nil
+}
+
+func (s *Set) LintFile(ctx context.Context, filename, data string) (*errpos.ErrorsWithSource, error) {
+	return protobuild.LintFile(ctx, s.PS, filename, data)
+}
+
+func (s *Set) LintAll(ctx context.Context) (*errpos.ErrorsWithSource, error) {
+	return protobuild.LintAll(ctx, s.PS)
+}
+
+// Compile is the one-shot form: fresh set, one package.
+func Compile(ctx context.Context, content map[string]string, pkg string) ([]protoreflect.FileDescriptor, error) {
+	s, err := NewSet(&Files{Content: content}, nil)
+	if err != nil {
+		return nil, err
+	}
+	return s.CompilePackage(ctx, pkg)
+}
+
+// WithDeps returns the files together with everything they import
+// (transitively), dependencies first, each file once.
+func WithDeps(files []protoreflect.FileDescriptor) []protoreflect.FileDescriptor {
+	seen := map[string]bool{}
+	var out []protoreflect.FileDescriptor
+	var visit func(f protoreflect.FileDescriptor)
+	visit = func(f protoreflect.FileDescriptor) {
+		if seen[f.Path()] {
+			return
+		}
+		seen[f.Path()] = true
+		imps := f.Imports()
+		for i := 0; i < imps.Len(); i++ {
+			visit(imps.Get(i).FileDescriptor)
+		}
+		out = append(out, f)
+	}
+	for _, f := range files {
+		visit(f)
+	}
+	return out
+}
+
+func ToProto(f protoreflect.FileDescriptor) *descriptorpb.FileDescriptorProto {
+	return protodesc.ToFileDescriptorProto(f)
+}
+
+// PrintFile renders a descriptor as .proto text with the real printer.
+func PrintFile(ctx context.Context, f protoreflect.FileDescriptor) (string, error) {
+	return protoprint.PrintFile(ctx, f, "")
+}
+
+// ErrorPositions extracts the positioned errors (if any) carried by err.
+func ErrorPositions(err error) (errpos.Errors, bool) {
+	return errpos.AsErrors(err)
+}
